@@ -1479,6 +1479,8 @@ class Interp:
                     return r
             if attr in o.attrs:
                 return o.attrs[attr]
+            if attr == "__dict__":
+                return o.attrs  # the instance dictionary
             if self.class_overlay and o.cls in self.prog.classes:
                 for c in self.prog.mro(o.cls):
                     if (c, attr) in self.class_overlay:
@@ -2140,6 +2142,22 @@ class Interp:
                 elif isinstance(k, Builtin):
                     py = {"str": str, "int": int, "float": float, "dict": dict, "list": list, "tuple": tuple, "bool": bool}.get(k.name)
                     if py is not None and isinstance(o, py):
+                        return True
+                elif isinstance(k, ExtMod) and k.name.split(".")[-1] in ("Hashable", "Iterable", "Sized", "Mapping", "Sequence") \
+                        and k.name.split(".")[0] in ("collections", "typing"):
+                    abc = k.name.split(".")[-1]
+                    if abc == "Hashable":
+                        if isinstance(o, (dict, list, set, TV)) and not (isinstance(o, TV) and self.lib == "casadi"):
+                            pass  # dicts, lists, sets and NumPy arrays are not hashable
+                        else:
+                            return True
+                    elif abc == "Iterable" and isinstance(o, (list, tuple, dict, set, frozenset, str, IterV, GenV, LazyV, Coll)):
+                        return True
+                    elif abc == "Sized" and isinstance(o, (list, tuple, dict, set, frozenset, str, Coll)):
+                        return True
+                    elif abc == "Mapping" and isinstance(o, dict):
+                        return True
+                    elif abc == "Sequence" and isinstance(o, (list, tuple, str)):
                         return True
                 elif isinstance(k, ExtMod):
                     # isinstance(x, cs.SX) etc: handled by the world
